@@ -18,6 +18,11 @@ func honestPairWith(c *Ctx, stream, format string, credAlg, attAlg int, adjust f
 	if adjust != nil {
 		adjust(s)
 	}
+	if r.P(1, 4) {
+		// a caller's policy that admits this format and type (and little else): the honest ceremony is still accepted, and the
+		// policy ends with the call — the next ceremony without options sees the defaults again
+		s.VerifyOpt = []M{{"formats": []string{hx([]byte(fmtID(format)))}}, {"types": []string{hx([]byte(expectedType[format]))}}}
+	}
 	b := buildRegistration(r, s)
 	op := b.Op()
 	executors["register"](c, stream, op)
